@@ -29,9 +29,11 @@ for d in sorted(os.listdir(os.path.join(V, "seeded"))):
 for f in sorted(os.listdir(os.path.join(V, "benign"))):
     if not f.endswith(".diff") or (only and not any(o in f for o in only)): continue
     pids = open(os.path.join(V, "benign", f[:-5] + ".props")).read().split() if os.path.exists(os.path.join(V, "benign", f[:-5] + ".props")) else ["C02"]
+    ep = os.path.join(V, "benign", f[:-5] + ".expect")
+    want = int(open(ep).read()) if os.path.exists(ep) else 0   # 2 = known to be undecided (exit 2); never 1
     for pid in pids:
         rc, note = run(os.path.join(V, "benign", f), pid)
-        ok = rc == 0
+        ok = rc == want
         bad += not ok
-        print("%s benign %-50s %s expect 0 got %s  %s" % ("ok  " if ok else "FAIL", f, pid, rc, note), flush=True)
+        print("%s benign %-50s %s expect %s got %s  %s" % ("ok  " if ok else "FAIL", f, pid, want, rc, note), flush=True)
 sys.exit(1 if bad else 0)
